@@ -275,8 +275,50 @@ func randEvent(rng *rand.Rand) *jevent {
 	}
 }
 
-// judge draws n random events, records them and lets TLC judge them.
+// judgeBatchSize bounds one trace file: TLC holds the whole deserialised trace in memory.
+const judgeBatchSize = 25000
+
+// judge draws n random events in batches, records them and lets TLC judge them.
 func judge(c *core.Ctx, n int) (map[string]any, error) {
+	total := map[string]any{}
+	kinds := map[string]int{}
+	sum := map[string]int{}
+	var wall float64
+	var distinct int64
+	for b, done := 0, 0; done < n; b++ {
+		k := n - done
+		if k > judgeBatchSize {
+			k = judgeBatchSize
+		}
+		r, err := judgeBatch(c, k, int64(b))
+		if err != nil {
+			return nil, err
+		}
+		for kind, v := range r["by_kind"].(map[string]int) {
+			kinds[kind] += v
+		}
+		for _, key := range []string{"conforming", "conforming_to_known_deviation", "outside_format_not_judged", "rejected"} {
+			sum[key] += r[key].(int)
+		}
+		t := r["tlc"].(map[string]any)
+		wall += t["wall_s"].(float64)
+		distinct += t["distinct"].(int64)
+		done += k
+		total["batches"] = b + 1
+	}
+	total["events"] = n
+	total["by_kind"] = kinds
+	for k, v := range sum {
+		total[k] = v
+	}
+	total["corrupted_event_rejected"] = true
+	total["tlc"] = map[string]any{"distinct": distinct, "wall_s": wall}
+	return total, nil
+}
+
+// judgeBatch draws n random events (generator streams of batch number batch), runs them and has TLC judge them;
+// a corrupted copy of one event is appended and must be rejected.
+func judgeBatch(c *core.Ctx, n int, batch int64) (map[string]any, error) {
 	// events are drawn and run by c.Workers goroutines, each with its own seeded generator and runtime
 	workers := c.Workers
 	if workers < 1 {
@@ -289,7 +331,7 @@ func judge(c *core.Ctx, n int) (map[string]any, error) {
 		wg.Add(1)
 		go func(w int) {
 			defer wg.Done()
-			rng := rand.New(rand.NewSource(c.Seed*7919 + 12 + int64(w)*104729))
+			rng := rand.New(rand.NewSource(c.Seed*7919 + 12 + int64(w)*104729 + batch*1299709))
 			box := &jvm{}
 			quota := n / workers
 			if w < n%workers {
